@@ -966,9 +966,9 @@ def stream_twice(chk, i, rng):
             chk.fail("path:second-run-start", f"second path() starts at alpha {a2[:1]} instead of {a1[:1]}", slim(case), layer="L3")
 
 
-STREAMS = {"grid": (stream_grid, 130, 2500), "badargs": (stream_badargs, 42, 500), "dynamic": (stream_dynamic, 24, 300),
+STREAMS = {"grid": (stream_grid, 110, 2500), "badargs": (stream_badargs, 42, 500), "dynamic": (stream_dynamic, 24, 300),
            "dynzero": (stream_dynzero, 16, 160), "keepwindow": (stream_keepwindow, 24, 300),
-           "repr": (stream_repr, 14, 120), "boundary": (stream_boundary, len(BOUNDARY_KINDS), 8 * len(BOUNDARY_KINDS)), "mlcl": (stream_mlcl, 16, 160),
+           "repr": (stream_repr, 12, 120), "boundary": (stream_boundary, len(BOUNDARY_KINDS), 8 * len(BOUNDARY_KINDS)), "mlcl": (stream_mlcl, 12, 160),
            "nan": (stream_nan, 20, 200), "alpha0": (stream_alpha0, 6, 30), "patience0": (stream_patience0, 8, 60),
            "defaults": (stream_defaults, 6, 60), "twice": (stream_twice, 5, 50)}
 
